@@ -93,7 +93,7 @@ class C01(Prop):
           'a flow strictly inside a non-zero-width slot and a non-zero curve parameter; plus (oracle only) ADevice over the function classes outside the '
           'Lean embedding: X2D of mixed scalar functions, Poly1D, InnerSumFunction variants, real-exponent ABCCost, numdifftools-based classes, '
           'empty / single SumFunction')
-  sizes = {'quick': 400, 'thorough': 12000}
+  sizes = {'quick': 400, 'thorough': 8000}
   assumptions = ['oracle: central finite differences (h=1e-5) of the implementation cost, away from kinks']
   rule = rule + ('; plus 1 in %d: ADevice(f = TemporalVariance | CobbDouglas | InformationEntropy) on a strictly positive box (entropy: also '
                  'mixed-sign boxes), n 1..8 - TemporalVariance tied by T2 to the exact rational model (fnnd.*), the other two by the transcription oracle' % ND_SHARE)
